@@ -108,6 +108,11 @@ func famConfig(o *Out, r R, tier string) {
 		c.Origins = []string{"https://example.com", d, "https://*.example.com"}
 		emit("single-origin-defect", c)
 	}
+	for _, d := range originsACE {
+		c := cloneCfg(base)
+		c.Origins = []string{"https://example.com", d}
+		emit("single-origin-ace", c)
+	}
 	for _, d := range methodsDefect {
 		c := cloneCfg(base)
 		c.Methods = []string{"PUT", d}
@@ -148,6 +153,18 @@ func famConfig(o *Out, r R, tier string) {
 			c.Methods = []string{"M" + genTokenBody(r, l, style)}
 			emit("name-lengths", c)
 		}
+	}
+	// every byte value inside a method, a request-header name and a response-header name (valid iff the byte is a tchar)
+	for bv := 0; bv < 256; bv++ {
+		c := cloneCfg(base)
+		ch := string([]byte{byte(bv)})
+		c.Methods = []string{"PU" + ch + "RGE"}
+		c.RequestHeaders = []string{"x" + ch + "name"}
+		c.ResponseHeaders = []string{"y" + ch + "name"}
+		emit("byte-in-name", c)
+		c2 := cloneCfg(base)
+		c2.Methods = []string{ch + "PURGE" + ch}
+		emit("byte-in-name", c2)
 	}
 	for _, d := range resHdrsDefect {
 		c := cloneCfg(base)
